@@ -54,6 +54,7 @@ def make_eio_class(world, is_async):
 
     def _begin(self, url, headers, transports, engineio_path):
         w = world
+        w.eio = self          # the client instance now in use
         w.connect_calls.append({'url': url, 'headers': headers,
                                 'transports': transports,
                                 'path': engineio_path})
@@ -140,7 +141,7 @@ def make_eio_class(world, is_async):
 class ClientWorld:
     def __init__(self, is_async=False, loop=None, serializer='default',
                  client_class=None, event_factory=None, task_factory=None,
-                 **kwargs):
+                 instantiate=True, **kwargs):
         self.is_async = is_async
         self.serializer = serializer
         self.connect_calls = []
@@ -170,9 +171,14 @@ class ClientWorld:
             install(self.loop)
         else:
             self.loop = None
-        self.c = C(serializer=serializer, **kwargs)
-        self.eio = self.c.eio
         self.C = C
+        self.client_kwargs = dict(kwargs, serializer=serializer)
+        if instantiate:
+            self.c = C(**self.client_kwargs)
+            self.eio = self.c.eio
+        else:
+            self.c = None
+            self.eio = None
 
     # -- tasks (threaded client, sequential) --------------------------------
     def start_task(self, target, *args, **kwargs):
@@ -320,13 +326,9 @@ class ClientWorld:
         return lg
 
     def close(self):
-        try:
-            eio_base_client.connected_clients.remove(self.eio)
-        except ValueError:
-            pass
+        del eio_base_client.connected_clients[:]
         from socketio import base_client as sio_base_client
-        while self.c in sio_base_client.reconnecting_clients:
-            sio_base_client.reconnecting_clients.remove(self.c)
+        del sio_base_client.reconnecting_clients[:]
         if self.loop is not None:
             try:
                 for t in asyncio.all_tasks(self.loop):
